@@ -227,12 +227,35 @@ func evalHelper(x *Exec, h helperCase) {
 		if len(dead) > 0 {
 			hist = append(hist, Op{Kind: "block", Dels: dead})
 		}
-		insts, _, ok := fam.run(x, hist)
-		if !ok {
-			x.Note("blocked: partial forest could not be built for mapmissing")
-			return
+		var m *u.MapPollard
+		if h.Mode == "fromroots-full" || h.Mode == "fromroots-partial" {
+			// a map forest (full or partial) started from the bare roots of the state; then the
+			// leaves in B are verified with remember (complete honest proof) and Extra leaves added
+			mm := u.NewMapPollardFromRoots(append([]Hash(nil), L.Roots...), N, h.Mode == "fromroots-full")
+			m = &mm
+			if len(h.B) > 0 {
+				pb := L.Proof(h.B)
+				if err := safe(func() error { return m.VerifyPartialProof(pb.Targets, ref.Hashes(h.B), pb.Proof, true) }); err != nil {
+					x.Note("blocked: VerifyPartialProof(remember) failed while preparing a from-roots forest")
+					return
+				}
+			}
+			if k := int(h.Extra); k > 0 {
+				if err := safe(func() error { return m.Modify(leavesFor(s.N(), k, func(int) bool { return true }), nil, u.Proof{}) }); err != nil {
+					x.Note("blocked: Modify failed while preparing a from-roots forest")
+					return
+				}
+				s = s.Apply(nil, k)
+				L = ref.APILayout(s)
+			}
+		} else {
+			insts, _, ok := fam.run(x, hist)
+			if !ok {
+				x.Note("blocked: partial forest could not be built for mapmissing")
+				return
+			}
+			m = insts[0].m
 		}
-		m := insts[0].m
 		td := L.Targets(h.A)
 		tdC := append([]uint64(nil), td...)
 		var miss []uint64
@@ -352,6 +375,16 @@ func helperCases(c *Ctx, nmax int, permLimit int, emit func(helperCase)) int {
 						}
 					}
 				}
+				for _, mode := range []string{"fromroots-full", "fromroots-partial"} {
+					emit(helperCase{Fn: "mapmissing", N: N, Alive: key, A: A, Mode: mode})
+					emit(helperCase{Fn: "mapmissing", N: N, Alive: key, A: A, Mode: mode, Extra: 1})
+					for _, b := range live {
+						emit(helperCase{Fn: "mapmissing", N: N, Alive: key, A: A, B: []int{b}, Mode: mode})
+						if N <= 5 {
+							emit(helperCase{Fn: "mapmissing", N: N, Alive: key, A: A, B: []int{b}, Mode: mode, Extra: 2})
+						}
+					}
+				}
 				for _, mode := range []string{"all", "even", "none"} {
 					for _, tr := range []uint8{0, 3, 63} {
 						emit(helperCase{Fn: "mapmissing", N: N, Alive: key, A: A, Mode: mode, TR: tr})
@@ -373,7 +406,7 @@ func helperCases(c *Ctx, nmax int, permLimit int, emit func(helperCase)) int {
 func runHelpers(c *Ctx, prop string) {
 	nmax := pick(c, 7, 8)
 	permLimit := pick(c, 3, 4)
-	c.Cov.Rule = "for every accumulator state with N<=Nmax (every alive subset): AddProof and GetMissingPositions on every ordered pair of non-empty live leaf sets (first list also reversed); GetProofSubset on every target list in every order (all permutations for |A|<=PermLimit) x every sub-list in every order, plus every single uncovered want; MapPollard.GetMissingPositions + VerifyPartialProof on partial forests (remember all/even/none, TotalRows 0/3/63) for every target set; hashes always parallel to the targets as listed; oracle: reference canonical proofs and path sets; non-trivial = cases with at least two targets in a state with a dead leaf"
+	c.Cov.Rule = "for every accumulator state with N<=Nmax (every alive subset): AddProof and GetMissingPositions on every ordered pair of non-empty live leaf sets (first list also reversed); GetProofSubset on every target list in every order (all permutations for |A|<=PermLimit) x every sub-list in every order, plus every single uncovered want; MapPollard.GetMissingPositions + VerifyPartialProof on partial forests (remember all/even/none, TotalRows 0/3/63) and on full and partial forests started from bare roots (then one leaf verified with remember and/or leaves added) for every target set; hashes always parallel to the targets as listed; oracle: reference canonical proofs and path sets; non-trivial = cases with at least two targets in a state with a dead leaf"
 	c.Cov.Bound["Nmax"] = nmax
 	c.Cov.Bound["PermLimit"] = permLimit
 	var cases []helperCase
